@@ -1118,6 +1118,45 @@ def register_all(M):
         raise Unsupported("equality of %r and %r" % (x, y))
     M.elem_eq = elem_eq
 
+    def ordering_is_le(c, o):
+        """Ordering value → python bool `not Greater` (forking on symbolic discriminants is left to the comparison that produced it)"""
+        o = deref(o)
+        if isinstance(o, Agg) and o.variant in ("Less", "Equal", "Greater"):
+            return o.variant != "Greater"
+        if isinstance(o, SInt):
+            return c.decide(o.z() <= 0) if not o.concrete else (o.v if o.v < 128 else o.v - 256) <= 0
+        raise Unsupported("Ordering %r" % (o,))
+
+    def slice_sort_by(c, m, a):
+        # stable insertion sort driven by the closure (the std sort is stable)
+        v = deref(a[0])
+        items = v.items
+        out = []
+        for x in items:
+            pos = len(out)
+            while pos > 0 and not ordering_is_le(c, c.call_callable(a[1], [new_ref(out[pos - 1]), new_ref(x)])):
+                pos -= 1
+            out.insert(pos, x)
+        items[:] = out
+        return UNIT
+    M.add(r"core::slice::<impl \[.*\]>::sort_by::<.*>|core::slice::<impl \[.*\]>::sort_unstable_by::<.*>", slice_sort_by)
+
+    def slice_sort(c, m, a):
+        v = deref(a[0])
+        if not all(isinstance(deref(x), (Str, StringBuf)) and all(ch.concrete for ch in as_str(x).chars) for x in v.items):
+            raise Unsupported("sort of non-text / symbolic elements")
+        v.items.sort(key=lambda x: [ch.v for ch in as_str(x).chars])
+        return UNIT
+    M.add(r"core::slice::<impl \[.*\]>::sort|core::slice::<impl \[.*\]>::sort_unstable", slice_sort)
+
+    def text_cmp(c, m, a):
+        x, y = as_str(deref(a[0])), as_str(deref(a[1]))
+        if not all(ch.concrete for ch in x.chars + y.chars):
+            raise Unsupported("ordering of symbolic text")
+        kx, ky = [ch.v for ch in x.chars], [ch.v for ch in y.chars]
+        return Agg("Ordering", "Less" if kx < ky else "Greater" if kx > ky else "Equal", [])
+    M.add(r"<(?:String|str|&str|PathBuf|(?:std::path::)?Path|&(?:std::path::)?Path|&PathBuf) as Ord>::cmp|<(?:String|str|PathBuf) as PartialOrd>::partial_cmp", text_cmp)
+
     def slice_contains(c, m, a):
         items = as_items(a[0])
         return sbool(z_or([elem_eq(c, x, a[1]) for x in items]))
@@ -1247,6 +1286,17 @@ def register_all(M):
         keep = c.call_callable(a[1], [new_ref(o.fields[0])])
         return o if c.decide(keep) else none()
     M.add(r"Option::<.*>::filter::<.*>", opt_filter)
+
+    def opt_is_some_and(c, m, a):
+        o = deref(a[0]) if isinstance(a[0], Ref) else a[0]
+        if isinstance(o, SymOpt):
+            if not c.decide(o.present.v if o.present.concrete else o.present.z()):
+                return SBool(False)
+            o = some(o.fields[0])
+        if o.variant != "Some":
+            return SBool(False)
+        return c.call_callable(a[1], [o.fields[0]])
+    M.add(r"Option::<.*>::is_some_and::<.*>", opt_is_some_and)
 
     def res_map_err(c, m, a):
         o = a[0]
